@@ -25,7 +25,7 @@ fn dispatch(w: &[&str]) -> String {
         Some("varint") | Some("sid") => e_c16::handle(w),
         Some("dgram") => e_c18::handle(w),
         Some("set") => e_c13::handle(w),
-        Some("cell") => e_c05::handle(w),
+        Some("cell") | Some("cellmv") => e_c05::handle(w),
         Some("hdr") => e_c12::handle(w),
         Some("dyn") => e_c20::handle(w),
         Some("qpack") => e_c11::handle(w),
